@@ -18,3 +18,9 @@ def run(rep, W, ctx):
     S.c18_ops(rep, W)
     H.handler_args(rep, W)
     S.s_wmc(rep, W, only=[WD.tm("set_snapshot")])
+    # "replaces the stored snapshot" / "stay untouched": set_snapshot stores what it is given, nothing else writes those fields
+    from rules import wiring as WR
+    S.s_sql_closed(rep, W)
+    S.c11(rep, W)
+    WR.c13_written(rep, W)
+    H.c14_tables(rep, W, modules=("add_snapshot",))       # "the client is told success either way"
